@@ -935,3 +935,140 @@ Proof.
   unfold o2n_of in Hin. rewrite keys_combine in Hin by (rewrite length_seqz; unfold nums; rewrite map_length; reflexivity).
   unfold rn_part in Hin. rewrite (nums_filter (fun k => start <=? k)) in Hin. apply filter_In in Hin as [Hin _]. exact Hin.
 Qed.
+
+(* ------------------------------------------------------------------ the line number printed in a report *)
+Lemma glnum_fold q d : forall acc,
+  let f := fun (pre : Z) (kv : Z * Z) => if (snd kv <=? q) && (pre <? fst kv) then fst kv else pre in
+  let r := fold_left f d acc in
+  acc <= r /\ (forall k v, In (k, v) d -> v <= q -> k <= r) /\ (r = acc \/ exists v, In (r, v) d /\ v <= q).
+Proof.
+  induction d as [|[k0 v0] d IH]; intros acc f r.
+  - subst r. cbn. split; [lia|]. split; [intros k v []|left; reflexivity].
+  - subst r. cbn [fold_left]. specialize (IH (f acc (k0, v0))). cbv zeta in IH. destruct IH as [H1 [H2 H3]].
+    fold f in H1, H2, H3.
+    assert (Hacc : acc <= f acc (k0, v0) /\ (v0 <= q -> k0 <= f acc (k0, v0))
+                   /\ (f acc (k0, v0) = acc \/ (f acc (k0, v0) = k0 /\ v0 <= q))).
+    { unfold f. cbn [fst snd]. destruct (v0 <=? q) eqn:E1; destruct (acc <? k0) eqn:E2; cbn [andb]; lia. }
+    destruct Hacc as [Ha [Hb Hc]]. split; [lia|]. split.
+    + intros k v [Hin|Hin] Hv; [inversion Hin; subst; specialize (Hb Hv); lia | exact (H2 k v Hin Hv)].
+    + destruct H3 as [H3|[v [Hin Hv]]]; [|right; exists v; split; [right; exact Hin | exact Hv]].
+      destruct Hc as [Hc|[Hc Hv]]; [left; lia|]. right. exists v0. split; [left; rewrite H3, Hc; reflexivity | exact Hv].
+Qed.
+
+Lemma glnum_spec c s ls tail a k b r q :
+  abs_ok c s ls tail -> ls = a ++ (k, b) :: r -> size a <= q < size a + 5 + zlen b ->
+  get_line_number (lines s) q = k.
+Proof.
+  intros Habs Hls Hq. pose proof Habs as [Hs Hn Hb Hcode Hnd Hlines Hfit].
+  assert (Hidx : idx 0 ls = idx 0 a ++ (k, size a) :: idx (size a + 5 + zlen b) r).
+  { rewrite Hls, idx_app. cbn [idx fst snd]. replace (0 + size a) with (size a) by lia. reflexivity. }
+  assert (Hk0 : 0 <= k).
+  { rewrite Forall_forall in Hn. specialize (Hn (k, b)). cbn [fst] in Hn. apply Hn. rewrite Hls. apply in_app_iff. right. left. reflexivity. }
+  assert (Hsz : size ls = size a + 5 + zlen b + size r) by (rewrite Hls, size_app; cbn [size snd]; lia).
+  pose proof (size_nonneg r) as Hr0.
+  destruct (glnum_fold q (lines s) (-1)) as [H1 [H2 H3]]. fold (get_line_number (lines s) q) in H1, H2, H3.
+  assert (Hge : k <= get_line_number (lines s) q).
+  { apply (H2 k (size a)); [|lia]. apply Hlines. unfold index. rewrite Hidx. rewrite !in_app_iff. left. right. left. reflexivity. }
+  destruct H3 as [H3|[v [Hin Hv]]]; [lia|].
+  apply Hlines in Hin. unfold index in Hin. rewrite Hidx in Hin. rewrite !in_app_iff in Hin. cbn [In] in Hin.
+  destruct Hin as [[Hin|[Hin|Hin]]|[Hin|[]]].
+  - (* a line in front: its number is below k *)
+    apply In_idx_num in Hin. rewrite Hls in Hs. unfold nums in Hs. rewrite map_app in Hs. cbn [map fst] in Hs.
+    assert (Hlt : get_line_number (lines s) q < k); [|lia].
+    clear - Hs Hin. induction a as [|x a IH]; [contradiction|]. cbn [nums map app] in *.
+    inversion Hs as [|? ? Hs' Hall]; subst. destruct Hin as [<-|Hin]; [|exact (IH Hs' Hin)].
+    rewrite Forall_forall in Hall. apply Hall. apply in_app_iff. right. left. reflexivity.
+  - inversion Hin. lia.
+  - apply In_idx_ge in Hin. lia.
+  - inversion Hin. lia.
+Qed.
+
+Lemma rw_body_ev_range_n d o2n n : forall b, (length b <= n)%nat -> forall bef pos lit rem skip p j rep,
+  body_ok b lit rem skip = true -> In (p, j, rep) (snd (rw_body d o2n b bef pos lit rem skip)) ->
+  pos + 3 <= p <= pos + zlen b.
+Proof.
+  induction n as [|n IH]; intros b Hn bef pos lit rem skip p j rep H Hin.
+  - destruct b; [contradiction | cbn in Hn; lia].
+  - destruct b as [|c r]; [contradiction|]. cbn [length] in Hn. rewrite zlen_cons. pose proof (zlen_nonneg r).
+    cbn [body_ok] in H. cbn [rw_body] in Hin. destruct (0 <? skip) eqn:E.
+    + cbn [snd] in Hin. apply (IH r ltac:(lia)) in Hin; [lia | exact H].
+    + destruct (c =? 0) eqn:E0; [discriminate|].
+      destruct ((if c =? 34 then negb lit else lit) || (if c =? 34 then rem else if (c =? tk_REM) && negb lit then true else rem)) eqn:Es.
+      * cbn [snd] in Hin. apply (IH r ltac:(lia)) in Hin; [lia | exact H].
+      * destruct (c =? tk_T_UINT) eqn:Eu.
+        -- apply Z.eqb_eq in Eu. subst c. change (tk_plus_bytes tk_T_UINT) with 2 in H.
+           apply orb_false_iff in Es as [Hl1 Hl2]. rewrite Hl1, Hl2 in H.
+           destruct r as [|lo [|hi r']]; cbn [body_ok] in H; try discriminate.
+           change (0 <? 2) with true in H. cbv iota in H. change (2 - 1) with 1 in H.
+           change (0 <? 1) with true in H. cbv iota in H. change (1 - 1) with 0 in H.
+           cbn [length] in Hn. cbv iota beta zeta in Hin. cbn [snd In] in Hin. rewrite !zlen_cons. pose proof (zlen_nonneg r').
+           destruct Hin as [Hin|Hin]; [inversion Hin; lia|]. apply (IH r' ltac:(lia)) in Hin; [lia | exact H].
+        -- cbn [snd] in Hin. apply (IH r ltac:(lia)) in Hin; [lia | exact H].
+Qed.
+
+Lemma rw_prog_ev_range d o2n c0 ls : forall p0 bef pos p j rep,
+  Forall (fun l : line => wf_body (snd l) = true) ls ->
+  In (p, j, rep) (snd (rw_prog d o2n c0 p0 ls bef pos)) ->
+  exists a l r, ls = a ++ l :: r /\ pos + size a + 8 <= p <= pos + size a + 5 + zlen (snd l).
+Proof.
+  induction ls as [|l r IH]; intros p0 bef pos p j rep Hb Hin; [contradiction|].
+  pose proof (Forall_inv Hb) as Hb1. pose proof (Forall_inv_tail Hb) as Hb2. cbn beta in Hb1.
+  unfold wf_body in Hb1. apply andb_true_iff in Hb1 as [_ Hk].
+  cbn [rw_prog snd] in Hin. apply in_app_iff in Hin as [Hin|Hin].
+  - exists [], l, r. split; [reflexivity|]. cbn [size].
+    apply (rw_body_ev_range_n d o2n (length (snd l)) (snd l) (le_n _)) in Hin; [lia | exact Hk].
+  - destruct (IH _ _ _ p j rep Hb2 Hin) as [a [l' [r' [E Hr]]]]. exists (l :: a), l', r'.
+    split; [rewrite E; reflexivity|]. cbn [size]. lia.
+Qed.
+
+Lemma renumber_split ls : forall ns a2 l2 r2, length ns = length ls -> renumber ls ns = a2 ++ l2 :: r2 ->
+  exists a k r, ls = a ++ (k, snd l2) :: r /\ size a = size a2.
+Proof.
+  induction ls as [|l r IH]; intros [|n ns] a2 l2 r2 Hlen H; try discriminate.
+  - destruct a2; discriminate.
+  - unfold renumber in H. cbn [combine map fst snd] in H. fold (renumber r ns) in H.
+    destruct a2 as [|x a2]; cbn [app] in H.
+    + inversion H; subst. exists [], (fst l), r. split; [destruct l; reflexivity | reflexivity].
+    + inversion H as [[Hx Hrest]]. destruct (IH ns a2 l2 r2 ltac:(cbn in Hlen; lia) Hrest) as [a [k [r' [E Hs]]]].
+      exists (l :: a), k, r'. split; [rewrite E; reflexivity|]. cbn [size snd]. rewrite Hs. reflexivity.
+Qed.
+
+Lemma renumber_self ls : renumber ls (nums ls) = ls.
+Proof. induction ls as [|[n b] r IH]; [reflexivity|]. unfold renumber. cbn [nums map combine fst snd]. fold (nums r). fold (renumber r (nums r)). rewrite IH. reflexivity. Qed.
+Lemma renumber_app a b na nb : length na = length a ->
+  renumber (a ++ b) (na ++ nb) = renumber a na ++ renumber b nb.
+Proof.
+  revert na; induction a as [|x a IH]; intros [|n na] H; try discriminate; [reflexivity|].
+  unfold renumber. cbn [app combine map]. fold (renumber (a ++ b) (na ++ nb)). fold (renumber a na).
+  rewrite IH by (cbn in H; lia). reflexivity.
+Qed.
+
+(* every reference found by RENUM lies inside some line of the program, and the line number printed in its
+   report (get_line_number with the old index) is the OLD number of that line *)
+Theorem report_line c s ls tail new start step p j rep :
+  abs_ok c s ls tail -> In (p, j, rep) (snd (renum_lines c s ls new start step)) ->
+  exists a k b r, ls = a ++ (k, b) :: r /\ size a + 8 <= p <= size a + 5 + zlen b
+                  /\ get_line_number (lines s) (p - 1) = k.
+Proof.
+  intros Habs Hin. pose proof Habs as [Hs Hn Hb Hcode Hnd Hlines Hfit]. unfold renum_lines in Hin.
+  set (rn := rn_part start ls) in *. set (keep := keep_part start ls) in *.
+  set (news := seqz new step (length rn)) in *.
+  assert (Hlen : length news = length rn) by apply length_seqz.
+  assert (Hls2 : keep ++ renumber rn news = renumber ls (nums keep ++ news)).
+  { replace (renumber ls (nums keep ++ news)) with (renumber (keep ++ rn) (nums keep ++ news))
+      by (unfold keep, rn; rewrite <- (split2 ls start Hs); reflexivity).
+    rewrite renumber_app by (unfold nums; apply map_length).
+    rewrite renumber_self. reflexivity. }
+  assert (Hb2 : Forall (fun l : line => wf_body (snd l) = true) (keep ++ renumber rn news)).
+  { apply Forall_app. split; [apply Forall_filter; exact Hb|].
+    apply (bodies_renumber (fun b => wf_body b = true)); [exact Hlen | apply Forall_filter; exact Hb]. }
+  destruct (rw_prog_ev_range _ _ _ _ _ _ _ p j rep Hb2 Hin) as [a2 [l2 [r2 [E Hr]]]].
+  rewrite Hls2 in E.
+  assert (Hlen2 : length (nums keep ++ news) = length ls).
+  { rewrite app_length, Hlen. unfold nums. rewrite map_length.
+    replace (length ls) with (length (keep ++ rn)) by (unfold keep, rn; rewrite <- (split2 ls start Hs); reflexivity).
+    rewrite app_length. reflexivity. }
+  destruct (renumber_split ls _ a2 l2 r2 Hlen2 E) as [a [k [r [Els Hsz]]]].
+  exists a, k, (snd l2), r. split; [exact Els|]. split; [lia|].
+  apply (glnum_spec c s ls tail a k (snd l2) r (p - 1) Habs Els). lia.
+Qed.
